@@ -442,34 +442,7 @@ func checkC12(p *core.Program, r *core.Report) {
 	r.Rule(R5, "every gorilla write call (Conn.WriteMessage/WriteControl/NextWriter/WriteJSON) holds one common mutex: gorilla allows one concurrent writer and panics otherwise")
 	li := checkEscapeLocks(p, r, a, uses, closedByRoutine, R4, tn)
 	r.Floor(R4, 1)
-	var common core.LockSet
-	nw := 0
-	for _, fn := range a.fns {
-		core.EachInstr(fn, func(in ssa.Instruction) {
-			switch core.CalleeName(core.Common(in)) {
-			case "(*github.com/gorilla/websocket.Conn).WriteMessage", "(*github.com/gorilla/websocket.Conn).WriteControl",
-				"(*github.com/gorilla/websocket.Conn).NextWriter", "(*github.com/gorilla/websocket.Conn).WriteJSON", "(*github.com/gorilla/websocket.Conn).WritePreparedMessage":
-			default:
-				return
-			}
-			nw++
-			ls := li.Must[in]
-			key := "transport write in " + p.FnName(fn)
-			if len(ls) == 0 {
-				r.Fail(R5, key, p.Pos(in.Pos()), "a websocket write is made without holding the write mutex: the pump's frame write and a close frame / ping written from another goroutine can run concurrently (gorilla panics: concurrent write to websocket connection)")
-			} else {
-				r.OK(R5, key, p.Pos(in.Pos()), "holds "+ls.String())
-			}
-			if common == nil {
-				common = ls.Clone()
-			} else {
-				common = common.Intersect(ls)
-			}
-		})
-	}
-	if nw > 1 && len(common) == 0 {
-		r.Fail(R5, "transport writes common mutex", "", "the websocket write sites do not share a mutex")
-	}
+	checkTransportWrites(p, r, a, li, R5)
 	r.Floor(R5, 1)
 }
 
@@ -1058,4 +1031,36 @@ func checkEscapeLocks(p *core.Program, r *core.Report, a *wsAnchors, uses map[*t
 		}
 	}
 	return li
+}
+
+// checkTransportWrites: every gorilla write call holds one common mutex (shared by C12.R5 and C08.R4).
+func checkTransportWrites(p *core.Program, r *core.Report, a *wsAnchors, li *core.LockInfo, R5 string) {
+	var common core.LockSet
+	nw := 0
+	for _, fn := range a.fns {
+		core.EachInstr(fn, func(in ssa.Instruction) {
+			switch core.CalleeName(core.Common(in)) {
+			case "(*github.com/gorilla/websocket.Conn).WriteMessage", "(*github.com/gorilla/websocket.Conn).WriteControl",
+				"(*github.com/gorilla/websocket.Conn).NextWriter", "(*github.com/gorilla/websocket.Conn).WriteJSON", "(*github.com/gorilla/websocket.Conn).WritePreparedMessage":
+			default:
+				return
+			}
+			nw++
+			ls := li.Must[in]
+			key := "transport write in " + p.FnName(fn)
+			if len(ls) == 0 {
+				r.Fail(R5, key, p.Pos(in.Pos()), "a websocket write is made without holding the write mutex: the pump's frame write and a close frame / ping written from another goroutine can run concurrently (gorilla panics: concurrent write to websocket connection)")
+			} else {
+				r.OK(R5, key, p.Pos(in.Pos()), "holds "+ls.String())
+			}
+			if common == nil {
+				common = ls.Clone()
+			} else {
+				common = common.Intersect(ls)
+			}
+		})
+	}
+	if nw > 1 && len(common) == 0 {
+		r.Fail(R5, "transport writes common mutex", "", "the websocket write sites do not share a mutex")
+	}
 }
